@@ -146,7 +146,7 @@ def _bind_params(h, call, prefix):
     defaults = dict(zip(params[len(params) - len(a.defaults):], a.defaults))
     bound = {}
     args = list(call.args)
-    if isinstance(call.func, ast.Attribute) and params[:1] == ["self"]:
+    if isinstance(call.func, ast.Attribute) and params[:1] == ["self"] and not h.decorator_list:
         args = [ast.Name(id="self", ctx=ast.Load())] + args
     for i, v in enumerate(args):
         if i >= len(params):
@@ -199,7 +199,7 @@ def _helper_body(mod, h, call, res, caller):
         raise NotInlinable("generator / global state / recursion")
     if any(isinstance(n, (ast.FunctionDef, ast.ClassDef, ast.Lambda)) for n in ast.walk(h) if n is not h):
         raise NotInlinable("nested definitions")
-    if h.decorator_list:
+    if h.decorator_list and [norm_(d) for d in h.decorator_list] != ["staticmethod"]:
         raise NotInlinable("decorated")
     prefix = f"_{h.name.strip('_')}{next(_counter)}_"
     names = _assigned_names(h)
@@ -258,6 +258,13 @@ def _generator_body(mod, g, call, target, loop_body, caller):
     return gassigns + [init] + new
 
 
+def norm_(n):
+    try:
+        return ast.unparse(n)
+    except Exception:
+        return "?"
+
+
 def _is_new_helper(mod, qual):
     """Only functions that did not exist when the rules were written are expanded (extracted helpers)."""
     from .corefuncs import CORE_FUNCS
@@ -278,8 +285,11 @@ def _module_helper(mod, f, caller=None):
             for q, cand in mod.raw_funcs.items():
                 if q.endswith("." + f.attr) and getattr(cand, "cls", None) is not None and any(isinstance(b, ast.Name) and b.id == cand.cls.name for b in cls.bases):
                     h = cand
-        if isinstance(h, ast.FunctionDef) and not h.decorator_list and h.args.args and h.args.args[0].arg == "self" and _is_new_helper(mod, h.qual):
-            return h
+        if isinstance(h, ast.FunctionDef) and _is_new_helper(mod, h.qual):
+            if not h.decorator_list and h.args.args and h.args.args[0].arg == "self":
+                return h
+            if [norm_(d) for d in h.decorator_list] == ["staticmethod"]:
+                return h
     return None
 
 
@@ -287,7 +297,7 @@ def _single_expr_helper(h):
     body = list(h.body)
     if body and isinstance(body[0], ast.Expr) and isinstance(body[0].value, ast.Constant) and isinstance(body[0].value.value, str):
         body = body[1:]
-    if len(body) == 1 and isinstance(body[0], ast.Return) and body[0].value is not None and not h.decorator_list \
+    if len(body) == 1 and isinstance(body[0], ast.Return) and body[0].value is not None and (not h.decorator_list or [norm_(d) for d in h.decorator_list] == ["staticmethod"]) \
             and not _has(h, (ast.Yield, ast.YieldFrom, ast.Lambda, ast.NamedExpr, ast.ListComp, ast.SetComp, ast.DictComp, ast.GeneratorExp)):
         return body[0].value
     return None
@@ -319,7 +329,7 @@ class _ExprInline(ast.NodeTransformer):
             return c
         params = [x.arg for x in a.args]
         args = list(c.args)
-        if isinstance(c.func, ast.Attribute) and params[:1] == ["self"]:
+        if isinstance(c.func, ast.Attribute) and params[:1] == ["self"] and not h.decorator_list:
             args = [ast.Name(id="self", ctx=ast.Load())] + args
         defaults = dict(zip(params[len(params) - len(a.defaults):], a.defaults))
         bound = dict(zip(params, args))
@@ -620,6 +630,46 @@ def _sink_into_branches(stmts):
     return out
 
 
+def _split_ifexp_calls(stmts):
+    """f(A if t else B)  ->  if t: f(A) else: f(B)     for expression statements whose call has that single argument."""
+    out = []
+    for s in stmts:
+        for fld in ("body", "orelse", "finalbody"):
+            if isinstance(getattr(s, fld, None), list) and not isinstance(s, (ast.FunctionDef, ast.ClassDef)):
+                setattr(s, fld, _split_ifexp_calls(getattr(s, fld)))
+        for hnd in getattr(s, "handlers", []) or []:
+            hnd.body = _split_ifexp_calls(hnd.body)
+        if isinstance(s, ast.Expr) and isinstance(s.value, ast.Call) and len(s.value.args) == 1 and not s.value.keywords \
+                and isinstance(s.value.args[0], ast.IfExp) and _pure_arg(s.value.func):
+            c, ie = s.value, s.value.args[0]
+            a = ast.copy_location(ast.Expr(value=ast.copy_location(ast.Call(func=_clone(c.func), args=[ie.body], keywords=[]), c)), s)
+            b = ast.copy_location(ast.Expr(value=ast.copy_location(ast.Call(func=_clone(c.func), args=[ie.orelse], keywords=[]), c)), s)
+            out.extend(_split_ifexp_calls([ast.copy_location(ast.If(test=ie.test, body=[a], orelse=[b]), s)]))
+        else:
+            out.append(s)
+    return out
+
+
+def _propagate_option_flags(fn):
+    """flag = <...>.options.<field>  (bound once)  ->  uses of flag replaced by the attribute chain."""
+    stores = {}
+    for n in ast.walk(fn):
+        if isinstance(n, ast.Name) and isinstance(n.ctx, ast.Store):
+            stores[n.id] = stores.get(n.id, 0) + 1
+    flags = {}
+    for st in ast.walk(fn):
+        if isinstance(st, ast.Assign) and len(st.targets) == 1 and isinstance(st.targets[0], ast.Name) and stores.get(st.targets[0].id) == 1 \
+                and isinstance(st.value, ast.Attribute) and _pure_arg(st.value) and isinstance(st.value.value, ast.Attribute) and st.value.value.attr == "options":
+            flags[st.targets[0].id] = st.value
+
+    class R(ast.NodeTransformer):
+        def visit_Name(self, n):
+            if isinstance(n.ctx, ast.Load) and n.id in flags:
+                return ast.copy_location(_clone(flags[n.id]), n)
+            return n
+    return R().visit(fn) if flags else fn
+
+
 def canonical_function(mod, fn, depth=3):
     """inline helpers, desugar comprehension-fed loops, propagate module literals and trivial aliases."""
     cache = getattr(mod, "_canon_cache", None)
@@ -641,6 +691,8 @@ def canonical_function(mod, fn, depth=3):
         new.inlined_helpers = sorted(set(getattr(base, "inlined_helpers", [])) | set(elog))
     before = ast.dump(new)
     new.body = _desugar_comprehension_loops(new.body)
+    new.body = _split_ifexp_calls(new.body)
+    new = _propagate_option_flags(new)
     local_names = _assigned_names(new)
     new = _ConstProp(_module_constants(mod), local_names).visit(new)
     new = _copy_propagate(new)
